@@ -59,7 +59,12 @@ T_str_idx = T.set_index(pd.Index(list("abcdefghijkl"), name="si"))
 T_dt_idx = T.set_index(pd.date_range("2021-01-01", periods=12, freq="D", name="ti"))
 T_dup_idx = T.set_index(pd.Index([0, 0, 1, 1, 1, 2, 3, 3, 4, 5, 5, 5], name="di"))
 
+# sorted by a key WITH duplicates (runs of equal keys straddle partition borders): the
+# "already sorted" fast paths of set_index / sort_values
+T_sorted_dup = T.sort_values("a", kind="stable").reset_index(drop=True)
+
 PDFS = {
+    "Tg": T_sorted_dup,
     "T": T,
     "T2": T2,
     "TX": TX,
